@@ -5,7 +5,6 @@ CONSTANTS
   NV = 2
   W = 32
   Depth = 3
-  Mode = "noalias"
   Emit = "all"
   Pick = "all"
   FullLevels = {3}
@@ -14,6 +13,7 @@ CONSTANTS
   XOffs = {31,32,33}
   XLens = {32}
   MaxLen = 70
+  Mutant = "none"
   Prof <- ProfByLevel
 INVARIANT InvFlatTypeOK
 INVARIANT InvWellFormed
